@@ -16,6 +16,10 @@ Property theorems (and the lemmas they need). Model: `Model/Rule.lean`.
 * `C08_full_partial`, `C08_fixed_end_to_end` — the repaired surgery on every unambiguous program with ≤ 4
   branches; the unbounded `C08_full` is stated in a comment, not proved.
 * `C08_cex_third_alternative`, `C08_cex_nested_refinement`, `C08_cex_next_same_binding` — the three findings.
+* `C08_authoring` — multi-step authoring, unbounded: closing the `with rule:` block and opening `with rule:` again on
+  the same rule, anywhere between the top-level statements, leaves the very same store behind (the conditions root
+  is cached). `C08_build_partial_authored`, `C08_full_partial_authored`, `C08_today_end_to_end_authored` — the
+  build theorems for rules written in several blocks with the base `Add` anywhere between the branches.
 -/
 namespace KrroodVerif.Rdr
 
@@ -1389,5 +1393,283 @@ base rule" -/
 example : ((skeletons 4).filter fun p => p.clean && p.toRule.noNext).length = 21 ∧
     (let p := Prog.mk 0 (.cons .ref (.mk 1 (.cons .alt (.mk 2 .nil) .nil)) (.cons .alt (.mk 3 .nil) .nil))
      p.clean && p.toRule.noNext) = true := by decide +kernel
+
+/-! ## Multi-step authoring: several `with rule:` blocks on one rule -/
+
+theorem run_append (q : Quirks) (xs ys : List Op) : ∀ s : BState,
+    BState.run q s (xs ++ ys) = (BState.run q s xs).bind fun s' => BState.run q s' ys := by
+  induction xs with
+  | nil => intro s; simp [BState.run]
+  | cons x xs ih =>
+    intro s
+    simp only [List.cons_append, BState.run]
+    cases BState.step q s x with
+    | none => simp
+    | some s1 => simp [ih]
+
+/-- closing the `with rule:` block and opening `with rule:` again restores the very same builder state: the
+conditions root pushed by `__enter__` is the cached one -/
+theorem reenter_noop (q : Quirks) (s : BState) (c : Nat) (hs : s.stack = [c]) (hc : s.cachedRoot = some c)
+    (rest : List Op) :
+    BState.run q s (Op.exit :: Op.enterQuery :: rest) = BState.run q s rest := by
+  have : ({ nodes := s.nodes, stack := [c], cachedRoot := some c, last := s.last } : BState) = s := by
+    cases s; simp_all
+  simp only [BState.run, BState.step, hs, BState.conditionsRoot, hc]
+  rw [this]
+
+
+/-! the surgery touches neither the expression stack nor the cached conditions root -/
+
+@[simp] theorem modify_stack (s : BState) (i : Nat) (f : Node → Node) : (s.modify i f).stack = s.stack := rfl
+@[simp] theorem modify_cached (s : BState) (i : Nat) (f : Node → Node) :
+    (s.modify i f).cachedRoot = s.cachedRoot := rfl
+@[simp] theorem alloc_stack (s : BState) (n : Node) : (s.alloc n).1.stack = s.stack := rfl
+@[simp] theorem alloc_cached (s : BState) (n : Node) : (s.alloc n).1.cachedRoot = s.cachedRoot := rfl
+@[simp] theorem mkBinop_stack (s : BState) (k : NK) (l r : Nat) : (s.mkBinop k l r).1.stack = s.stack := rfl
+@[simp] theorem mkBinop_cached (s : BState) (k : NK) (l r : Nat) :
+    (s.mkBinop k l r).1.cachedRoot = s.cachedRoot := rfl
+@[simp] theorem setParent_stack (s : BState) (i : Nat) (p : Option Nat) : (s.setParent i p).stack = s.stack := by
+  cases p <;> rfl
+@[simp] theorem setParent_cached (s : BState) (i : Nat) (p : Option Nat) :
+    (s.setParent i p).cachedRoot = s.cachedRoot := by
+  cases p <;> rfl
+
+theorem doRefinement_frame (q : Quirks) (s s' : BState) (b : Nat) (h : s.doRefinement q b = some s') :
+    s'.stack = s.stack ∧ s'.cachedRoot = s.cachedRoot := by
+  unfold BState.doRefinement at h
+  split at h
+  · simp at h
+  · simp only [Option.some.injEq] at h
+    subst h
+    refine ⟨?_, ?_⟩ <;>
+    · simp only []
+      repeat' split
+      all_goals simp_all
+
+
+theorem doAltOrNext_frame (q : Quirks) (s s' : BState) (k : NK) (b : Nat)
+    (h : s.doAltOrNext q k b = some s') : s'.stack = s.stack ∧ s'.cachedRoot = s.cachedRoot := by
+  unfold BState.doAltOrNext at h
+  split at h
+  · simp at h
+  · simp only [Option.some.injEq] at h
+    subst h
+    refine ⟨?_, ?_⟩ <;>
+    · simp only []
+      repeat' split
+      all_goals simp_all
+
+/-- effect of one op on (stack, cached conditions root), once the root is cached -/
+theorem step_frame (q : Quirks) (s s' : BState) (c : Nat) (hc : s.cachedRoot = some c) (op : Op)
+    (h : s.step q op = some s') :
+    s'.cachedRoot = some c ∧
+      (match op with
+        | .enterQuery => s'.stack = c :: s.stack
+        | .enter => ∃ n, s'.stack = n :: s.stack
+        | .exit => ∃ n, s.stack = n :: s'.stack
+        | _ => s'.stack = s.stack) := by
+  cases op with
+  | enterQuery =>
+    simp only [BState.step, BState.conditionsRoot, hc, Option.some.injEq] at h
+    subst h; simp
+  | enter =>
+    simp only [BState.step] at h
+    split at h
+    · simp at h
+    · split at h
+      · simp only [BState.conditionsRoot, hc, Option.some.injEq] at h
+        subst h; exact ⟨rfl, c, rfl⟩
+      · simp only [Option.some.injEq] at h
+        subst h; exact ⟨hc, _, rfl⟩
+  | exit =>
+    simp only [BState.step] at h
+    split at h
+    · simp at h
+    · rename_i n st hst
+      simp only [Option.some.injEq] at h
+      subst h; exact ⟨hc, n, hst⟩
+  | add b =>
+    simp only [BState.step] at h
+    split at h
+    · simp at h
+    · simp only [Option.some.injEq] at h
+      subst h; exact ⟨hc, rfl⟩
+  | refinement b =>
+    have := doRefinement_frame q s s' b h
+    exact ⟨this.2 ▸ hc, this.1⟩
+  | alternative b =>
+    have := doAltOrNext_frame q s s' .alt b h
+    exact ⟨this.2 ▸ hc, this.1⟩
+  | next b =>
+    have := doAltOrNext_frame q s s' .next b h
+    exact ⟨this.2 ▸ hc, this.1⟩
+
+mutual
+/-- a block's body leaves the expression stack as it found it -/
+theorem Prog.ops_frame (q : Quirks) (c : Nat) : ∀ (p : Prog) (s s' : BState), s.cachedRoot = some c →
+    BState.run q s p.ops = some s' → s'.stack = s.stack ∧ s'.cachedRoot = some c
+  | .mk b kids, s, s', hc, h => by
+    simp only [Prog.ops, BState.run] at h
+    cases h1 : s.step q (Op.add b) with
+    | none => simp [h1] at h
+    | some s1 =>
+      simp only [h1] at h
+      have f1 := step_frame q s s1 c hc _ h1
+      have f2 := Kids.ops_frame q c kids s1 s' f1.1 h
+      exact ⟨f2.1.trans f1.2, f2.2⟩
+theorem Kids.ops_frame (q : Quirks) (c : Nat) : ∀ (k : Kids) (s s' : BState), s.cachedRoot = some c →
+    BState.run q s k.ops = some s' → s'.stack = s.stack ∧ s'.cachedRoot = some c
+  | .nil, s, s', hc, h => by
+    simp only [Kids.ops, BState.run, Option.some.injEq] at h
+    subst h; exact ⟨rfl, hc⟩
+  | .cons kd p rest, s, s', hc, h => by
+    simp only [Kids.ops, BState.run] at h
+    split at h
+    · rename_i s1 h1
+      have f1 : s1.cachedRoot = some c ∧ s1.stack = s.stack := by
+        cases kd <;> exact step_frame q s s1 c hc _ h1
+      split at h
+      · rename_i s2 h2
+        obtain ⟨c2, n, hn⟩ := step_frame q s1 s2 c f1.1 _ h2
+        rw [run_append] at h
+        cases h3 : BState.run q s2 p.ops with
+        | none => simp [h3] at h
+        | some s3 =>
+          simp only [h3, Option.bind_some, BState.run] at h
+          have f3 := Prog.ops_frame q c p s2 s3 c2 h3
+          split at h
+          · rename_i s4 h4
+            obtain ⟨c4, m, hm⟩ := step_frame q s3 s4 c f3.2 _ h4
+            have f5 := Kids.ops_frame q c rest s4 s' c4 h
+            refine ⟨?_, f5.2⟩
+            rw [f5.1]
+            have : m :: s4.stack = n :: s1.stack := by rw [← hm, f3.1, hn]
+            rw [(List.cons.inj this).2, f1.2]
+          · simp at h
+      · simp at h
+    · simp at h
+end
+
+
+theorem kidOps_eq (k : Kind) (p : Prog) : kidOps k p = (Kids.cons k p .nil).ops := by
+  simp [kidOps, Kids.ops]
+
+theorem items_run (q : Quirks) (c b : Nat) (tail : List Op) : ∀ (items : List Item) (s : BState),
+    s.stack = [c] → s.cachedRoot = some c →
+    BState.run q s (items.flatMap (Item.ops b) ++ tail) =
+      BState.run q s ((items.filter fun i => !i.isReenter).flatMap (Item.ops b)
+        ++ tail) := by
+  intro items
+  induction items with
+  | nil => intro s _ _; rfl
+  | cons it items ih =>
+    intro s hs hc
+    cases it with
+    | kid k p =>
+      simp only [List.flatMap_cons, List.filter_cons, Item.isReenter, Bool.not_false, ↓reduceIte, Item.ops, List.append_assoc]
+      rw [run_append, run_append]
+      cases h1 : BState.run q s (kidOps k p) with
+      | none => rfl
+      | some s1 =>
+        have f := Kids.ops_frame q c (.cons k p .nil) s s1 hc (by rw [← kidOps_eq]; exact h1)
+        simp only [Option.bind_some]
+        exact ih s1 (f.1.trans hs) f.2
+    | reenter =>
+      simp only [List.flatMap_cons, List.filter_cons, Item.isReenter, Bool.not_true, Bool.false_eq_true, ↓reduceIte, Item.ops, List.cons_append, List.nil_append]
+      rw [reenter_noop q s c hs hc]
+      exact ih s hs hc
+    | add =>
+      simp only [List.flatMap_cons, List.filter_cons, Item.isReenter, Bool.not_false, ↓reduceIte, Item.ops, List.cons_append, List.nil_append, BState.run]
+      cases h1 : s.step q (Op.add b) with
+      | none => rfl
+      | some s1 =>
+        have f := step_frame q s s1 c hc _ h1
+        exact ih s1 (f.2.trans hs) f.1
+
+/-- **C08_authoring.** Splitting the authoring of a rule over several `with rule:` blocks on the same rule does
+not change what is built: closing the block and opening `with rule:` again at any point between the top-level
+statements leaves the very same store behind — for every rule program, whatever the surgery quirks. (It is the
+*cached* `_conditions_root_` that makes this true: each `__enter__` pushes the base condition again.) -/
+theorem C08_authoring (q : Quirks) (a : Authored) : buildA q a = buildA q a.oneBlock := by
+  unfold buildA Authored.ops Authored.oneBlock
+  simp only [BState.run]
+  have h0 : (BState.init a.blk).step q Op.enterQuery =
+      some { BState.init a.blk with stack := [2], cachedRoot := some 2 } := by
+    simp [BState.step, BState.conditionsRoot, BState.init, BState.condLoop, BState.rootOf, BState.node]
+  rw [h0]
+  exact items_run q 2 a.blk [Op.exit] a.items _ rfl rfl
+
+
+/-! the base rule's `Add` statements anywhere between the branches (finite tables) -/
+
+def Kids.length : Kids → Nat
+  | .nil => 0
+  | .cons _ _ rest => rest.length + 1
+
+/-- program `p` written in one block with the base rule's `Add` statements after its first `k` branches -/
+def Prog.authoredAt (p : Prog) (k : Nat) : Authored :=
+  ⟨p.blk, (itemsOfKids p.kids).take k ++ Item.add :: (itemsOfKids p.kids).drop k⟩
+
+/-- the authoring `a` leaves behind the well-formed tree of program `p`'s rule -/
+def buildsWellFormedFor (q : Quirks) (a : Authored) (p : Prog) : Bool :=
+  match (buildA q a).bind BState.tree with
+  | some t => t.shape == p.toRule.compile && decide t.ids.Nodup
+  | none => false
+
+theorem buildsWellFormedFor_iff (q : Quirks) (a : Authored) (p : Prog) :
+    buildsWellFormedFor q a p = true ↔ ∃ t, (buildA q a).bind BState.tree = some t ∧ WellFormed t p.toRule := by
+  unfold buildsWellFormedFor WellFormed
+  cases (buildA q a).bind BState.tree with
+  | none => simp
+  | some t => simp
+
+theorem add_position_today_table :
+    ((skeletons 4).all fun p => !p.clean ||
+      (List.range (p.kids.length + 1)).all fun k => buildsWellFormedFor Quirks.today (p.authoredAt k) p) = true := by
+  decide +kernel
+
+theorem add_position_fixed_table :
+    ((skeletons 3).all fun p => !p.unambiguous ||
+      (List.range (p.kids.length + 1)).all fun k => buildsWellFormedFor Quirks.fixed (p.authoredAt k) p) = true := by
+  decide +kernel
+
+/-- **C08_build_partial_authored.** Multi-step authoring, today's surgery: a program with at most 4 branches
+outside the triggers of F-C08-1/2, written in any number of `with rule:` blocks on the same rule, with the base
+rule's `Add` statements after any `k` of its branches, still leaves the well-formed selector tree behind.
+(`C08_authoring` — unbounded — removes the block boundaries; the position of the `Add` is a kernel-evaluated table.) -/
+theorem C08_build_partial_authored (p : Prog) (hp : p ∈ skeletons 4) (hc : p.clean = true)
+    (k : Nat) (hk : k ≤ p.kids.length) (a : Authored) (ha : a.oneBlock = p.authoredAt k) :
+    ∃ t, (buildA Quirks.today a).bind BState.tree = some t ∧ WellFormed t p.toRule := by
+  have h := List.all_eq_true.mp add_position_today_table p hp
+  simp only [hc, Bool.not_true, Bool.false_or] at h
+  have h2 := List.all_eq_true.mp h k (List.mem_range.mpr (Nat.lt_succ_of_le hk))
+  rw [C08_authoring, ha]
+  exact (buildsWellFormedFor_iff _ _ _).mp h2
+
+/-- the same for the repaired surgery, unambiguous programs with at most 3 branches -/
+theorem C08_full_partial_authored (p : Prog) (hp : p ∈ skeletons 3) (hu : p.unambiguous = true)
+    (k : Nat) (hk : k ≤ p.kids.length) (a : Authored) (ha : a.oneBlock = p.authoredAt k) :
+    ∃ t, (buildA Quirks.fixed a).bind BState.tree = some t ∧ WellFormed t p.toRule := by
+  have h := List.all_eq_true.mp add_position_fixed_table p hp
+  simp only [hu, Bool.not_true, Bool.false_or] at h
+  have h2 := List.all_eq_true.mp h k (List.mem_range.mpr (Nat.lt_succ_of_le hk))
+  rw [C08_authoring, ha]
+  exact (buildsWellFormedFor_iff _ _ _).mp h2
+
+/-- **C08_today_end_to_end_authored.** Today's builder and evaluator on a rule written in several steps: clean,
+next-free, at most 4 branches, any payload, any duplicate-free domain — the rows are those `fire` demands. -/
+theorem C08_today_end_to_end_authored (p : Prog) (hp : p ∈ skeletons 4) (hc : p.clean = true)
+    (hnn : p.toRule.noNext = true) (k : Nat) (hk : k ≤ p.kids.length) (a : Authored)
+    (ha : a.oneBlock = p.authoredAt k) (pay : Payload) (dom : List Nat) (hd : dom.Nodup) :
+    ∃ t, (buildA Quirks.today a).bind BState.tree = some t ∧
+      ∀ c x, (c, x) ∈ evalTop pay Quirks.today.dedup dom t ↔ (c, x) ∈ spec pay p dom := by
+  obtain ⟨t, ht, hwf⟩ := C08_build_partial_authored p hp hc k hk a ha
+  exact ⟨t, ht, fun c x => C08_eval_partial pay _ dom p.toRule t hwf hnn hd c x⟩
+
+/-- non-vacuity: the two-step authoring of the seeded-change demo (first block: the refinement; second block:
+the base conclusion) is an instance — `oneBlock` of it is `authoredAt 1` of the one-refinement program -/
+example : (Authored.mk 0 [.kid .ref (.mk 1 .nil), .reenter, .add]).oneBlock.items.length = 2 ∧
+    buildsWellFormedFor Quirks.today (Authored.mk 0 [.kid .ref (.mk 1 .nil), .reenter, .add])
+      (.mk 0 (.cons .ref (.mk 1 .nil) .nil)) = true := by decide +kernel
 
 end KrroodVerif.Rdr
